@@ -129,7 +129,7 @@ def run(ctx):
     rng = ctx.rng(1)
     for k in range(ctx.n(300, 3000)):
         nb = int(rng.choice([1, 2, 3, 5, 8, 13, 97, 120]))
-        kindq = str(rng.choice(["idx-shuffled", "idx-repeats", "idx-sorted", "idx-perm-of-block", "count", "all"]))
+        kindq = str(rng.choice(["idx-shuffled", "idx-repeats", "idx-sorted", "idx-perm-of-block", "idx-block-by-endpoints", "count", "all"]))
         via = "run_worker" if rng.random() < 0.6 else "marginal_ln_likelihood_helper"
         pool = CapturePool()
         kw = dict(n_batches=nb if rng.random() < 0.8 else None)
@@ -144,6 +144,19 @@ def run(ctx):
             want = rng.choice(Nlib, size=n, replace=(kindq == "idx-repeats"))
             if kindq == "idx-sorted":
                 want = np.sort(want)
+            elif kindq == "idx-block-by-endpoints":
+                # "looks like one ascending block by its end points": first = min, last = first + len - 1, interior shuffled or
+                # taken from elsewhere
+                m_ = int(rng.integers(3, 12))
+                a = int(rng.integers(0, Nlib - m_))
+                if rng.random() < 0.5:
+                    mid = rng.permutation(np.arange(a + 1, a + m_ - 1))
+                    if len(mid) > 1 and np.all(np.diff(mid) > 0):
+                        mid = mid[::-1]
+                else:
+                    pool_ = np.setdiff1d(np.arange(Nlib), [a, a + m_ - 1])
+                    mid = rng.choice(pool_, size=m_ - 2, replace=False)
+                want = np.concatenate([[a], mid, [a + m_ - 1]]).astype(int)
             elif kindq == "idx-perm-of-block":
                 # a shuffled contiguous block (what randomize_prior_order produces over a whole library)
                 a = int(rng.integers(0, Nlib - 1)) if rng.random() < 0.5 else 0
